@@ -83,3 +83,40 @@ fn c15_integrity_salt() {
     }
     kani::cover!(true, "two salts");
 }
+
+/// C17 (large inputs): whatever the total size up to 200 000 bytes and however it is distributed over the
+/// five files, each function feeds HMAC exactly the bytes of the buffer, once and in order (span mode of the
+/// HMAC model: the pieces handed to `update` are consecutive sub-slices covering the whole buffer).
+#[kani::proof]
+#[kani::unwind(42)]
+fn c17_large_inputs() {
+    const MAX: usize = 200_000;
+    let len: usize = kani::any();
+    let c1: usize = kani::any();
+    let c2: usize = kani::any();
+    let c3: usize = kani::any();
+    let c4: usize = kani::any();
+    kani::assume(c1 <= c2 && c2 <= c3 && c3 <= c4 && c4 <= len && len <= MAX);
+    let salt: [u8; 16] = kani::any();
+    let key: [u8; 32] = kani::any();
+    let buf = vec![0u8; len];
+
+    verif_oracle::span_begin(buf.as_ptr());
+    let _ = login_integrity_check_generic(&buf, &salt, &key);
+    let (ok, total, _) = verif_oracle::span_end();
+    assert!(ok && total == len, "C17: the single-buffer function does not hash exactly the whole buffer, in order");
+
+    verif_oracle::span_begin(buf.as_ptr());
+    let _ = login_integrity_check_windows(&buf[..c1], &buf[c1..c2], &buf[c2..c3], &buf[c3..c4], &buf[c4..len], &salt, &key);
+    let (ok, total, _) = verif_oracle::span_end();
+    assert!(ok && total == len, "C17: the windows function does not hash exactly the five files, in order");
+
+    verif_oracle::span_begin(buf.as_ptr());
+    let _ = login_integrity_check_mac(&buf[..c1], &buf[c1..c2], &buf[c2..c3], &buf[c3..c4], &buf[c4..len], &salt, &key);
+    let (ok, total, _) = verif_oracle::span_end();
+    assert!(ok && total == len, "C17: the mac function does not hash exactly the five files, in order");
+
+    kani::cover!(len == 131_072, "total size an exact multiple of 64 KiB");
+    kani::cover!(len == 65_537 && c1 == 65_536, "a file of exactly 64 KiB followed by one byte");
+    kani::cover!(len == MAX && c1 == 0 && c2 == c3 && c3 > 0, "largest size with empty files");
+}
